@@ -595,7 +595,7 @@ pub fn replay_value(v: &Value) -> Vec<Violation> {
     if v.get("twin_without_unknown_lines").is_some() {
         let Some(full) = Scenario::from_json(&v["scenario"]) else { return vec![] };
         let all = delivered_lines(&full.all_bytes());
-        let is_cmd = |l: &Option<String>| l.as_deref().map(|x| ["uci", "isready", "ucinewgame", "position", "go", "quit", "stop", "ponderhit"].contains(&first_token(x))).unwrap_or(false);
+        let is_cmd = |l: &Option<String>| l.as_deref().map(|x| ["uci", "debug", "isready", "setoption", "register", "ucinewgame", "position", "go", "stop", "ponderhit", "quit"].contains(&first_token(x))).unwrap_or(false);
         let mut filtered = full.clone();
         filtered.lines = all.iter().filter(|l| is_cmd(l)).map(|l| format!("{}\n", l.as_deref().unwrap())).collect();
         let ra = run_scenario(&full, false);
@@ -899,7 +899,7 @@ pub fn run(ctx: &Ctx) -> i32 {
         // the same answers (only scripts that search; searches are depth-limited)
         if heavy {
             let all = delivered_lines(&base.all_bytes());
-            let is_cmd = |l: &Option<String>| l.as_deref().map(|x| ["uci", "isready", "ucinewgame", "position", "go", "quit", "stop", "ponderhit"].contains(&first_token(x))).unwrap_or(false);
+            let is_cmd = |l: &Option<String>| l.as_deref().map(|x| ["uci", "debug", "isready", "setoption", "register", "ucinewgame", "position", "go", "stop", "ponderhit", "quit"].contains(&first_token(x))).unwrap_or(false);
             if all.iter().any(|l| !is_cmd(l)) {
                 let mut full = base.clone();
                 full.cut = None;
